@@ -6,7 +6,11 @@ LEVEL = f1.LEVEL
 
 
 def units(tier):
-    return f1.all_units()
+    """H:<class> = operation histories; V:<element> = values of every python kind offered to the element constructor
+    (the symbolic value paths of the C05 harness, watched for undocumented exceptions)"""
+    from . import c05
+    c05.precompute()
+    return ['H:' + n for n in f1.all_units()] + ['V:' + n for n in sorted(lib.MODEL['elements'])]
 
 
 def per_step(w, st):
@@ -39,11 +43,34 @@ def passes(name, tier):
     return ps
 
 
-def run_unit(name, tier, seed):
-    return f1.multi(name, passes(name, tier), judge, judge_concrete, per_step=per_step)
+def run_values(name, tier):
+    """value offers (int / Float64 / str symbolic, bool concrete) to the element constructor: any exception other than
+    TypeError / ValueError / the documented families is an internal error"""
+    from . import c05
+    stats, cands, samples, sig = c05.analyse('E:' + name, tier, 'cold')
+    out = []
+    for c in cands:
+        if c.get('prop') == 'C19':
+            out.append(dict(cls=name, kind=c['kind'], witness=dict(value=c['witness']['value']), detail=c['detail']))
+    return dict(stats=stats, cands=out, samples=samples[:1], nontrivial=int(stats['paths']), evaluations=int(stats['paths']),
+                funcs=['xmlelement/xmlelement.py:XMLElement.__init__', 'XMLElement.value_', 'xsd/xsdsimpletype.py:XSDSimpleType._check_value'],
+                bounds=dict(values='all ints, all Float64, strings over SIGMA up to the C05 length bound'))
+
+
+def run_unit(unit, tier, seed):
+    kind, name = unit.split(':', 1)
+    if kind == 'V':
+        return run_values(name, tier)
+    r = f1.multi(name, passes(name, tier), judge, judge_concrete, per_step=per_step)
+    return r
 
 
 def replay(c):
+    if 'value' in c['witness']:
+        from . import c05
+        ctor, L, _ = c05.target('E:' + c['cls'])
+        ok, text = c05.concrete(ctor, c05.decode(c['witness']['value']))
+        return ok is None, str(text)
     if c['kind'] == 'hang':
         return (True, 'exceeded 5 s again') if hist.hangs(c['cls'], c['witness']['ops']) else (False, 'finished within the limit')
     for k, d in judge_concrete(c['cls'], c['witness']['ops'], c['witness']):
